@@ -68,6 +68,9 @@ pub struct Config {
     /// use `SystemRunner::run()` (Ok iff the code is 0) instead of `run_with_code()`
     #[serde(default)]
     use_run: bool,
+    /// the system thread has hosted (and dropped) another System before the one under test
+    #[serde(default)]
+    prior_system: bool,
 }
 
 #[derive(Serialize, Deserialize, Clone, Debug, PartialEq)]
@@ -99,7 +102,15 @@ struct TaskRec {
     has_current: bool,
 }
 
+#[derive(Clone, Copy, PartialEq, Debug)]
+enum SysCmd {
+    Reg(usize),
+    Dereg(usize),
+    Exit,
+}
+
 struct ArbRec {
+    arb_id: usize,
     arbiter: Option<Arbiter>,
     handle: ArbiterHandle,
     slot: usize,
@@ -132,6 +143,19 @@ struct State {
     main_thread: Option<ThreadId>,
     markers: Vec<(usize, Option<ThreadId>)>, // (task id of the ViaCurrent parent, thread the marker ran on)
     rr_phase: bool,
+    /// slots of arbiter threads whose event loop has returned (BeforeDeregister reached)
+    loop_ended: Vec<usize>,
+    refused_before_join: bool,
+    /// the system arbiter's own loop was told to stop (its tasks keep being polled by the system's
+    /// LocalSet after that, so "a task runs" no longer implies "the arbiter accepts commands")
+    sys_arb_stopped: bool,
+    /// reference model of the system's command channel: what has been sent and not yet taken
+    sysq: std::collections::VecDeque<SysCmd>,
+    /// arbiter ids the reference controller has registered
+    registered: Vec<usize>,
+    /// arbiter ids that were registered when the controller took an Exit off the channel
+    must_end: Vec<usize>,
+    exits_processed: u32,
 }
 
 pub struct Sim {
@@ -148,6 +172,19 @@ thread_local! {
     static TICKER_INSTALLED: std::cell::Cell<bool> = const { std::cell::Cell::new(false) };
     /// (slot, arbiter id) announced by the most recent `Creating` point on this thread
     static LAST_CREATED: std::cell::Cell<(usize, usize)> = const { std::cell::Cell::new((usize::MAX, usize::MAX)) };
+    /// gives the baton back when the thread is really over (locals of the thread body dropped)
+    static EXIT_GUARD: std::cell::RefCell<Option<ExitGuard>> = const { std::cell::RefCell::new(None) };
+}
+
+struct ExitGuard(Arc<Sim>);
+
+impl Drop for ExitGuard {
+    fn drop(&mut self) {
+        if let Some(s) = self.0.me() {
+            self.0.log(format!("arbiter thread of slot {s} ends"));
+        }
+        self.0.exit_slot();
+    }
 }
 
 impl Sim {
@@ -365,7 +402,12 @@ impl Hooks for SimHooks {
                 if sim.me().is_none() {
                     return;
                 }
-                sim.st.lock().unwrap().ready.push(id);
+                {
+                    let mut st = sim.st.lock().unwrap();
+                    st.ready.push(id);
+                    // RegisterArbiter was sent between BeforeRegister and here, with the baton held
+                    st.sysq.push_back(SysCmd::Reg(id));
+                }
                 sim.yield_now();
             }
             Point::WaitReady(id) => {
@@ -382,12 +424,50 @@ impl Hooks for SimHooks {
                     sim.yield_now();
                 }
             }
-            Point::BeforeRegister(_) | Point::BeforeDeregister(_) | Point::RunnerItem | Point::ControllerItem => sim.yield_now(),
-            Point::ThreadEnd(_) => {
+            Point::BeforeDeregister(_) => {
                 if let Some(s) = sim.me() {
-                    sim.log(format!("arbiter thread of slot {s} ends"));
+                    let mut st = sim.st.lock().unwrap();
+                    st.loop_ended.push(s);
+                    evpush(&mut st.events, format!("event loop of slot {s} has returned"));
                 }
-                sim.exit_slot();
+                sim.yield_now()
+            }
+            Point::ControllerItem => {
+                if sim.me().is_none() {
+                    return;
+                }
+                sim.yield_now();
+                // the controller polls its channel right after this hook returns, baton held: the
+                // reference model takes the same command
+                let mut st = sim.st.lock().unwrap();
+                match st.sysq.pop_front() {
+                    Some(SysCmd::Reg(id)) => st.registered.push(id),
+                    Some(SysCmd::Dereg(id)) => st.registered.retain(|r| *r != id),
+                    Some(SysCmd::Exit) => {
+                        st.exits_processed += 1;
+                        let reg = st.registered.clone();
+                        for id in reg {
+                            if !st.must_end.contains(&id) {
+                                st.must_end.push(id);
+                            }
+                        }
+                        let n = st.exits_processed;
+                        evpush(&mut st.events, format!("controller takes Exit #{n}"));
+                    }
+                    None => {}
+                }
+            }
+            Point::BeforeRegister(_) | Point::RunnerItem => sim.yield_now(),
+            Point::ThreadEnd(id) => {
+                if sim.me().is_some() {
+                    // DeregisterArbiter was sent between BeforeDeregister and here, baton held
+                    sim.st.lock().unwrap().sysq.push_back(SysCmd::Dereg(id));
+                }
+                // the thread keeps the baton while the locals of its body (runtime, parked tasks)
+                // are dropped; the slot exits from a thread-local destructor, after all of that
+                if sim.me().is_some() {
+                    EXIT_GUARD.with(|g| *g.borrow_mut() = Some(ExitGuard(sim.clone())));
+                }
             }
         }
     }
@@ -468,7 +548,18 @@ impl Future for TaskFut {
                         })
                     });
                     if ok != Some(true) {
-                        sim.st.lock().unwrap().markers.push((id, None));
+                        let mut st = sim.st.lock().unwrap();
+                        st.markers.push((id, None));
+                        // a task of an `Arbiter::new` arbiter is polled only from inside its
+                        // `block_on(ArbiterRunner)`, so the receiver is alive; the system arbiter's
+                        // tasks outlive its runner once a stop (of the system or of that arbiter)
+                        // has been issued
+                        let on_sys = st.tasks[id].arb == usize::MAX;
+                        let alive = !on_sys || (st.first_stop.is_none() && !st.sys_arb_stopped);
+                        if alive { st.violation.get_or_insert(Violation::new(
+                            "current-arbiter-dead",
+                            format!("inside a running task, Arbiter::current() was {} although the arbiter running the task is alive", if ok.is_none() { "absent" } else { "a handle whose spawn_fn reports false" }),
+                        )); }
                     }
                 }
                 TaskKind::StopSystem(code) => do_system_stop(&sim, code),
@@ -486,6 +577,7 @@ impl Future for TaskFut {
                                 a.explicit_stop_seq = Some(seq);
                             }
                         } else {
+                            st.sys_arb_stopped = true;
                             drop(st);
                             h.stop();
                         }
@@ -539,6 +631,7 @@ fn do_system_stop(sim: &Arc<Sim>, code: i32) {
         st.second_stop = true;
     }
     evpush(&mut st.events, format!("stop_with_code({code})"));
+    st.sysq.push_back(SysCmd::Exit);
     // the send happens while the harness lock is held: issue order == send order
     sys.stop_with_code(code);
 }
@@ -587,7 +680,17 @@ fn do_spawn(sim: &Arc<Sim>, arb: usize, kind: TaskKind, via_handle: bool) {
     };
     st.tasks[id].sent_ok = ok;
     let joined = arb != usize::MAX && st.arbs[arb].joined;
+    let ended = arb != usize::MAX && st.loop_ended.contains(&st.arbs[arb].slot);
     evpush(&mut st.events, format!("spawn task {id} on arb {} -> {ok}", if arb == usize::MAX { "sys".to_string() } else { arb.to_string() }));
+    if !ok && ended && !joined {
+        st.refused_before_join = true;
+    }
+    if ok && ended && !joined {
+        st.violation.get_or_insert(Violation::new(
+            "spawn-true-when-gone",
+            format!("spawn on arbiter {arb} returned true although its event loop had already returned"),
+        ));
+    }
     if ok && joined {
         st.violation.get_or_insert(Violation::new(
             "spawn-true-when-gone",
@@ -614,7 +717,7 @@ fn exec_op(sim: &Arc<Sim>, op: &Op, runner: Option<&actix_rt::SystemRunner>) {
             // the slot and thread announced by this very creation (creations may overlap)
             let (slot, arb_id) = LAST_CREATED.with(|l| l.get());
             let thread = st.arb_thread.get(&arb_id).copied();
-            st.arbs.push(ArbRec { arbiter: Some(arb), handle, slot, new_returned_seq: seq, explicit_stop_seq: None, joined: false, dropped: false, thread });
+            st.arbs.push(ArbRec { arb_id, arbiter: Some(arb), handle, slot, new_returned_seq: seq, explicit_stop_seq: None, joined: false, dropped: false, thread });
             let n = st.arbs.len() - 1;
             evpush(&mut st.events, format!("Arbiter::new returned: arb {n} (slot {slot})"));
         }
@@ -635,10 +738,10 @@ fn exec_op(sim: &Arc<Sim>, op: &Op, runner: Option<&actix_rt::SystemRunner>) {
                 if ok && st.arbs[a].explicit_stop_seq.is_none() {
                     st.arbs[a].explicit_stop_seq = Some(seq);
                 }
-                let joined = st.arbs[a].joined;
+                let joined = st.arbs[a].joined || st.loop_ended.contains(&st.arbs[a].slot);
                 evpush(&mut st.events, format!("stop arb {a} -> {ok}"));
                 if ok && joined {
-                    st.violation.get_or_insert(Violation::new("spawn-true-when-gone", format!("stop() on arbiter {a} returned true after join() had returned")));
+                    st.violation.get_or_insert(Violation::new("spawn-true-when-gone", format!("stop() on arbiter {a} returned true after its event loop had returned")));
                 }
             }
         }
@@ -731,10 +834,25 @@ fn sim_thread(sim: Arc<Sim>, cfg: Config) {
         let mut st = sim.st.lock().unwrap();
         st.main_thread = Some(thread::current().id());
     }
+    if cfg.prior_system {
+        // history: this thread has already hosted a System, whose thread-locals are still around
+        let old = System::new();
+        let v = old.block_on(async { 41 + 1 });
+        let _ = Arbiter::try_current().map(|h| h.spawn_fn(|| {}));
+        drop(old);
+        sim.log(format!("prior system on this thread: block_on -> {v}"));
+    }
     let s2 = sim.clone();
     let runner = System::with_tokio_rt(move || sim_runtime(s2));
     let sys = System::current();
-    sim.st.lock().unwrap().sys_id = sys.id();
+    {
+        let mut st = sim.st.lock().unwrap();
+        st.sys_id = sys.id();
+        // the new system has sent the registration of its own arbiter to its controller
+        st.sysq.clear();
+        st.registered.clear();
+        st.sysq.push_back(SysCmd::Reg(usize::MAX));
+    }
 
     // foreign threads
     let mut foreign_handles = Vec::new();
@@ -824,7 +942,10 @@ fn sim_thread(sim: Arc<Sim>, cfg: Config) {
     for a in 0..n {
         let (before, has_struct, slot, joined) = {
             let st = sim.st.lock().unwrap();
-            (st.arbs[a].new_returned_seq < stop_seq, st.arbs[a].arbiter.is_some(), st.arbs[a].slot, st.arbs[a].joined)
+            // ... and so has every arbiter that was registered when the controller took any Exit
+            // (also a second one) off its channel
+            let told = st.must_end.contains(&st.arbs[a].arb_id);
+            (st.arbs[a].new_returned_seq < stop_seq || told, st.arbs[a].arbiter.is_some(), st.arbs[a].slot, st.arbs[a].joined)
         };
         if joined {
             continue;
@@ -852,7 +973,7 @@ fn sim_thread(sim: Arc<Sim>, cfg: Config) {
             if before && matches!(st.violation.as_ref().map(|v| v.class.as_str()), Some("hang") | None) {
                 st.violation = Some(Violation::new(
                     "arbiter-not-stopped",
-                    format!("arbiter {a} was created before the first System::stop was issued but its event loop never ended"),
+                    format!("arbiter {a} was created before the first System::stop was issued (or was registered when the controller processed a later stop) but its event loop never ended"),
                 ));
             }
             break;
@@ -1034,7 +1155,7 @@ impl Engine for RtSim {
         main_ops.extend(gen_ops(rng, n_main, true, c10));
         let nf = rng.range(1, 2) as usize;
         let foreign = (0..nf).map(|_| { let n = rng.range(0, 7) as usize; gen_ops(rng, n, false, c10) }).collect();
-        Config { main_ops, foreign, max_actions: rng.range(50, 600) as usize, final_code: *rng.pick(&[0, 3]), use_run: rng.chance(1, 4) }
+        Config { main_ops, foreign, max_actions: rng.range(50, 600) as usize, final_code: *rng.pick(&[0, 3]), use_run: rng.chance(1, 4), prior_system: rng.chance(1, 4) }
     }
     fn max_actions(_: &str, cfg: &Config) -> usize {
         cfg.max_actions
@@ -1066,6 +1187,13 @@ impl Engine for RtSim {
                 main_thread: None,
                 markers: Vec::new(),
                 rr_phase: false,
+                loop_ended: Vec::new(),
+                refused_before_join: false,
+                sys_arb_stopped: false,
+                sysq: Default::default(),
+                registered: Vec::new(),
+                must_end: Vec::new(),
+                exits_processed: 0,
             }),
             cv: Condvar::new(),
             run_id: RUN_COUNTER.fetch_add(1, Ordering::SeqCst),
@@ -1119,6 +1247,21 @@ impl Engine for RtSim {
         if st.rr_phase {
             ctx.bump("round_robin_phase");
         }
+        if cfg.prior_system {
+            ctx.bump("probe.prior_system_on_thread");
+        }
+        if st.exits_processed >= 2 {
+            ctx.bump("probe.second_exit_processed");
+        }
+        {
+            let stop_seq = st.first_stop.map(|s| s.0).unwrap_or(u64::MAX);
+            if st.arbs.iter().any(|a| a.new_returned_seq > stop_seq && st.must_end.contains(&a.arb_id)) {
+                ctx.bump("probe.arbiter_between_stops_told");
+            }
+        }
+        if st.refused_before_join {
+            ctx.bump("probe.spawn_refused_before_join");
+        }
         if !st.markers.is_empty() {
             ctx.bump("probe.marker_via_current");
         }
@@ -1128,6 +1271,11 @@ impl Engine for RtSim {
     }
     fn shrink_config(_: &str, cfg: &Config) -> Vec<Config> {
         let mut v = Vec::new();
+        if cfg.prior_system {
+            let mut c = cfg.clone();
+            c.prior_system = false;
+            v.push(c);
+        }
         for i in 1..cfg.main_ops.len() {
             let mut c = cfg.clone();
             c.main_ops.remove(i);
@@ -1146,7 +1294,7 @@ impl Engine for RtSim {
         Describe {
             rule: format!(
                 "seeded programs (<=11 ops on the system thread, 1..2 foreign threads with <=7 ops; ops: new arbiter (<=3), spawn fn/future/pending-k/panicking/busy/self-stopping/system-stopping/cross-spawning task through the owner or a cloned handle or Arbiter::current(), stop / join / drop an arbiter, stop_with_code(0|7|-1), block_on) executed on real OS threads under a baton scheduler whose every choice (who runs next, at runtime ticks, at arbiter life-cycle points, at every runner/controller loop iteration) comes from the seed; {}; non-trivial = >=1 arbiter and >=1 task started; distinct = distinct event-trace hash",
-                if prop == "C09" { "oracle: run_with_code returns the first stop's code, every arbiter created before the first stop ends and joins" } else { "oracle: per-arbiter FIFO start order, at most once, own thread, System/Arbiter::current identity, nothing sent after stop() starts, spawn false once gone, join not early, block_on output" }
+                if prop == "C09" { "oracle: run_with_code returns the first stop's code, every arbiter created before the first stop ends and joins" } else { "oracle: per-arbiter FIFO start order, at most once, own thread, System/Arbiter::current identity (also on a thread that hosted another System before; Arbiter::current() inside a running task is a live handle), nothing sent after stop() starts, spawn/stop false once the event loop has returned and after join, join not early, block_on output" }
             ),
             real: vec!["actix_rt::{System, SystemRunner, SystemController, Arbiter, ArbiterHandle, ArbiterRunner, Runtime}", "tokio current_thread runtimes + LocalSet on real OS threads", "thread-locals HANDLE / CURRENT"],
             stub: vec!["OS scheduler (baton: one registered thread runs at a time)", "runtimes never park in the kernel (perpetual ticker task installed through on_thread_park)", "blocking joins run without the baton and become schedulable when the joined thread has ended"],
@@ -1157,7 +1305,7 @@ impl Engine for RtSim {
         if prop == "C09" {
             vec!["probe.second_stop", "probe.arbiter_struct_dropped", "probe.arbiter_stopped_early", "fault.busy_arbiter"]
         } else {
-            vec!["probe.task_sent_after_stop", "probe.marker_via_current", "fault.task_panic"]
+            vec!["probe.task_sent_after_stop", "probe.marker_via_current", "fault.task_panic", "probe.prior_system_on_thread", "probe.spawn_refused_before_join"]
         }
     }
 }
